@@ -120,17 +120,20 @@ def c05_fva(E, templates=QUICK_T, fractions=(1, Fraction(1, 2), 0), pfba=(None,)
     networks.symbolic_bounds(E, m, which=(ids_all if w is None else ids_all[:w]))
     m.objective = {m.reactions.get_by_id(r): c for r, c in obj.items()}
     m.objective_direction = direction
-    rl = E.choice("reaction_list", 3, ["None", "objects", "ids"])
+    rl = E.choice("reaction_list", 4, ["None", "objects", "ids", "ids-repeated"])
     if rl == 0:
         arg, ids = None, ids_all
     elif rl == 1:
         ids = ids_all[:2]
         arg = [m.reactions.get_by_id(i) for i in ids]
-    else:
+    elif rl == 2:
         ids = [ids_all[-1], ids_all[1]]
         arg = list(ids)
+    else:
+        ids = [ids_all[1], ids_all[-1], ids_all[1]]      # a reaction named twice: every requested row is filled
+        arg = list(ids)
     E.note(template=tid, objective=obj, direction=direction, fraction=str(fraction), pfba_factor=str(factor),
-           reaction_list=["None", "objects", "ids"][rl])
+           reaction_list=["None", "objects", "ids", "ids-repeated"][rl])
     status, opt, setp = oracle_set(E, m, obj, direction, fraction, factor)
     before = observe(m)
     start = len(E.solve_log)
@@ -151,6 +154,18 @@ def c05_fva(E, templates=QUICK_T, fractions=(1, Fraction(1, 2), 0), pfba=(None,)
     lp, P = setp
     recs = _fva_steps(E, start) if E.symbolic else None
     if recs is not None and len(recs) != 2 * len(ids):
+        recs = None
+    if len(set(ids)) != len(ids):
+        # rows of a reaction named more than once all carry its range; the range itself is checked on the first one
+        if list(res.index) != ids:
+            return
+        for i, rid in enumerate(ids):
+            j = ids.index(rid)
+            if j != i:
+                E.prove(E.all_of([E.eq(res["minimum"].iloc[i], res["minimum"].iloc[j]),
+                                  E.eq(res["maximum"].iloc[i], res["maximum"].iloc[j])]), "repeated-item-rows-agree", reaction=rid)
+        res = res[~res.index.duplicated(keep="first")]
+        ids = list(dict.fromkeys(ids))
         recs = None
     check_ranges(E, m, res, ids, lp, P, recs)
 
